@@ -98,9 +98,19 @@ func (bp BundlePart) Load() (b bpv7.Bundle, err error) {
 
 // calcExpirationDate for a Bundle.
 func calcExpirationDate(b bpv7.Bundle) time.Time {
-	// TODO: check Bundle Age Block
-	return b.PrimaryBlock.CreationTimestamp.DtnTime().Time().Add(
-		time.Duration(b.PrimaryBlock.Lifetime) * time.Millisecond)
+	lifetime := time.Duration(b.PrimaryBlock.Lifetime) * time.Millisecond
+
+	// A source without a clock sets a zero creation time and a Bundle Age Block. The remaining lifetime then counts
+	// from now, less the age accumulated so far; the epoch plus the lifetime would be long gone.
+	if b.PrimaryBlock.CreationTimestamp.IsZeroTime() {
+		var age time.Duration
+		if bab, err := b.ExtensionBlock(bpv7.ExtBlockTypeBundleAgeBlock); err == nil {
+			age = time.Duration(bab.Value.(*bpv7.BundleAgeBlock).Age()) * time.Millisecond
+		}
+		return time.Now().Add(lifetime - age)
+	}
+
+	return b.PrimaryBlock.CreationTimestamp.DtnTime().Time().Add(lifetime)
 }
 
 // bundlePartPath returns a path for a Bundle.
